@@ -15,6 +15,7 @@ CHECKS = {
     "C07": ("harness.checks.klass_props", "C07"),
     "C08": ("harness.checks.klass_props", "C08"),
     "C09": ("harness.checks.klass_props", "C09"),
+    "C12": ("harness.checks.c12", "C12"),
 }
 
 
